@@ -148,8 +148,9 @@ theorem safe_jstep {cfg : Cfg} {s s' : St} {j : Nat} (hr : cfg.recheck = true) (
     · split at hs
       · cases hs
       · cases hs; exact safe_jStartCompact h hj hpc (by assumption)
-    · cases hs; exact safe_startRollup h hj hpc (by assumption)
+    · cases hs; exact safe_startRollup h hj hpc (Or.inl (by assumption))
     · cases hs; exact safe_startDelObs h hj hpc (by assumption)
+    · cases hs; exact safe_startRollup h hj hpc (Or.inr (by assumption))
   case h_2 hpc => cases hs; exact safe_jPicked h hj hpc
   case h_3 hpc => cases hs; exact safe_jRead h hj hpc
   case h_4 hpc =>
@@ -183,7 +184,8 @@ theorem safe_jstep {cfg : Cfg} {s s' : St} {j : Nat} (hr : cfg.recheck = true) (
   case h_15 hpc => cases hs; exact safe_jUnlock h hj hpc
   case h_16 hpc =>
     split at hs
-    · cases hs; exact safe_jUnpend _ h hj hpc (Or.inr ⟨rfl, by assumption⟩)
+    · cases hs; exact safe_jUnpend _ h hj hpc (Or.inr (Or.inr ⟨rfl, by assumption⟩))
+    · cases hs; exact safe_jUnpend _ h hj hpc (Or.inr (Or.inl rfl))
     · cases hs; exact safe_jUnpend _ h hj hpc (Or.inl rfl)
   case h_17 hpc =>
     split at hs
